@@ -154,7 +154,11 @@ pub enum DataSpec {
 pub enum SetRef {
     Existing(Ref),
     Literal(String),
+    /// no dataset is named: the data goes to the default set, which the first such request creates
+    Unnamed,
 }
+
+pub const DEFAULT_SET: &str = "default-annotationset";
 
 #[derive(Clone, Copy, Debug, Serialize, Deserialize, PartialEq)]
 pub enum ProtectMode {
